@@ -916,11 +916,18 @@ SPELLED_RECORDS = ('capacity', 'gpu-limit', 'reservation-e0(gpu)',
                    'reservation-e1')
 
 
+# one style per kind of spelling, for the deeper (3 records off) sweep
+KIND_STYLES = [BASE_STYLE, (1, '', False, False), (3, 'B', False, False),
+               (4, 'B', False, False), (3, 'b', True, False),
+               (0, '', False, False), (3, 'B', False, True)]
+
+
 def spelling_plan(tier):
     """[(unit exponent, assignment)] - complete within the stated bounds:
     quick: unit T, level-0 styles, <= 2 of the 4 records off the base style;
-    thorough: unit T, level-0 styles with <= 3 off, level-1 styles with <= 2
-    off; unit E (2**60) with the suffixes T P E, <= 2 off."""
+    thorough: unit T, level-1 styles with <= 2 off, one style per kind
+    (KIND_STYLES) with <= 3 off; unit E (2**60) with the suffixes T P E,
+    <= 2 off."""
     plan, seen = [], set()
 
     def add(unit, gen):
@@ -933,7 +940,7 @@ def spelling_plan(tier):
         add(4, _deviating(spelling_styles(0), 4, 2))
     else:
         add(4, _deviating(spelling_styles(1), 4, 2))
-        add(4, _deviating(spelling_styles(0), 4, 3))
+        add(4, _deviating(KIND_STYLES, 4, 3))
         add(6, _deviating(spelling_styles(0, scales=(4, 5, 6)), 4, 2))
     return plan
 
